@@ -31,13 +31,15 @@ func c16Data(i int) map[string]any {
 
 func c16Tree(cfg int) Tree {
 	t := Tree{Dir: "t", Ext: ".tw", Debug: cfg&1 != 0, Files: map[string]string{
-		"lay.tw":   "<html>@reserve(\"title\")|@reserve(\"body\")</html>",
-		"card.tw":  "<card {{ n }}>@slot</card>",
-		"ok.tw":    "@use(\"lay\")@insert(\"title\", name)@insert(\"body\")@each(i in items)@component(\"card\", {n: i})@slot{{ loop.iter }}@end@end@end@if(flag)F@end{{ {b: 1, a: 2}.a }}@end",
-		"fail.tw":  "start {{ name }}\n@each(i in items){{ i }}@end\n{{ name.nope() }}",
-		"fail2.tw": "@use(\"lay\")@insert(\"body\"){{ 1 / 0 }}@end",
-		"plain.tw": "plain {{ name.upper() }} {{ items.len() }}",
-		"err.tw":   "custom error page",
+		"lay.tw":      "<html>@reserve(\"title\")|@reserve(\"body\")</html>",
+		"card.tw":     "<card {{ n }}>@slot</card>",
+		"ok.tw":       "@use(\"lay\")@insert(\"title\", name)@insert(\"body\")@each(i in items)@component(\"card\", {n: i})@slot{{ loop.iter }}@end@end@end@if(flag)F@end{{ {b: 1, a: 2}.a }}@end",
+		"fail.tw":     "start {{ name }}\n@each(i in items){{ i }}@end\n{{ name.nope() }}",
+		"fail2.tw":    "@use(\"lay\")@insert(\"body\"){{ 1 / 0 }}@end",
+		"plain.tw":    "plain {{ name.upper() }} {{ items.len() }}",
+		"err.tw":      "custom error page",
+		"failloop.tw": "<ol>@each(i in [1, 2, 3])<li>{{ i }}</li>@if(loop.iter == 2){{ i.nope() }}@end@end</ol>@for(j = 0; j < 2; j++)[{{ j }}]@end",
+		"loops.tw":    "<ul>@each(i in items)<li>{{ i }}</li>@end</ul>@for(j = 0; j < 2; j++)[{{ j }}]@end",
 		// pages that assign top-level variables (rendered without data: nothing may survive the call)
 		"assign.tw":  "{{ x = 1 }}{{ x }}{{ n = nil }}",
 		"assign2.tw": "{{ x = \"s\" }}{{ x }}|{{ y = [1] }}{{ y.len() }}",
@@ -50,12 +52,35 @@ func c16Tree(cfg int) Tree {
 {{ a = [3, 1, 2] }}{{ a.len() }}{{ a.reverse() }}{{ a.slice(1) }}{{ a.contains(2) }}{{ a.append(4).prepend(0) }}{{ a.join("-") }}{{ a.shuffle().len() }}{{ a.rand() > 0 }}
 {{ 5.float() }}{{ (-5).abs() }}{{ 5.str() + "x" }}{{ 123.len() }}{{ 5.decimal(",", 1) }}{{ 2.5.int() }}{{ 2.5.str() }}{{ (-2.5).abs() }}{{ 2.4.ceil() }}{{ 2.6.floor() }}{{ 2.5.round() }}
 {{ true.binary() }}{{ flag.then("y", "n") }}{{ !flag ? 1 : 2 }}{{ {b: 1, a: [1, {c: nil}]}.a[1] }}{{ 7 % 3 }}{{ 1.5 * 2.0 }}{{ 3-- }}{{ 2.5++ }}
-@dump(name, items, {k: 1})@if(flag)A@elseif(name == "Bob<b>")B@else C@end`,
+@dump(name, items, {k: 1})@if(flag)A@elseif(name == "Bob<b>")B@else C@end
+` + c16Chains(),
 	}}
 	if cfg&2 != 0 {
 		t.ErrorPage = "err"
 	}
 	return t
+}
+
+// c16Chains: @if chains with 0..8 @elseif branches and an @else, first condition false (AST slices of every
+// length / spare capacity are walked by the renders).
+func c16Chains() string {
+	var sb strings.Builder
+	for n := 0; n <= 8; n++ {
+		sb.WriteString("@if(false)a")
+		for i := 0; i < n; i++ {
+			sb.WriteString(fmt.Sprintf("@elseif(1 > %d)e%d", i+2, i))
+		}
+		sb.WriteString(fmt.Sprintf("@else z%d@end", n))
+		sb.WriteString(fmt.Sprintf("{{ [%s].len() }}", strings.Repeat("1, ", n)+"0"))
+		sb.WriteString(fmt.Sprintf("{{ {%s}.k0 }}", func() string {
+			var ps []string
+			for i := 0; i <= n; i++ {
+				ps = append(ps, fmt.Sprintf("k%d: %d", i, i))
+			}
+			return strings.Join(ps, ", ")
+		}()))
+	}
+	return sb.String()
 }
 
 func outcomeKey(o Outcome) string {
@@ -64,7 +89,7 @@ func outcomeKey(o Outcome) string {
 
 func c16Ops() []c16Op {
 	var ops []c16Op
-	for _, name := range []string{"ok", "fail", "fail2", "nope", "lay", "plain", "sink"} {
+	for _, name := range []string{"ok", "fail", "fail2", "nope", "lay", "plain", "sink", "failloop", "loops"} {
 		for d := 0; d < 2; d++ {
 			name, d := name, d
 			ops = append(ops, c16Op{fmt.Sprintf("String(%s,d%d)", name, d), func(tpl *textwire.Template, t Tree) (string, bool) {
@@ -72,7 +97,7 @@ func c16Ops() []c16Op {
 				o := render(tpl, name, data)
 				return outcomeKey(o), !reflect.DeepEqual(data, c16Data(d))
 			}})
-			if name == "plain" || name == "lay" || name == "sink" {
+			if name == "plain" || name == "lay" || name == "sink" || name == "loops" {
 				continue
 			}
 			ops = append(ops, c16Op{fmt.Sprintf("Response(%s,d%d)", name, d), func(tpl *textwire.Template, t Tree) (string, bool) {
@@ -249,9 +274,9 @@ func c16Check(cs c16Case) (bool, string, string, string) {
 
 func c16Run(c *Ctx) {
 	enterScratch()
-	depth, brute := 4, 3
+	depth, brute := 4, 2
 	if c.Thorough() {
-		depth, brute = 8, 4
+		depth, brute = 8, 3
 	}
 	worlds := map[int]*c16World{}
 	world := func(cfg int) *c16World {
@@ -377,9 +402,9 @@ func init() {
 		Rule:  "explicit-state breadth-first search over the real entry points: from the state after NewTemplate on a fixed tree (layout, component in a loop with slots, failing pages, custom error page), every operation of {String, Response} x {ok page, two failing pages, unknown name, layout name, plain page} x 2 data maps, EvaluateString ok/failing, EvaluateFile ok/missing is applied to every reachable state; a state is the deep hash of every package-level variable of the module, the loaded program table (state vector extracted by the instrumenter); states are deduplicated and the search runs to a fixpoint; repeated for {debug on/off} x {no / valid custom error page}. On every transition the operation's result (output or message+line+path, and the Response body) must equal the result of the same operation issued first in a fresh state, and the restricted vector (ASTs, configuration, registry) and the caller's data must be unchanged. Additionally every history up to a small length is run without deduplication",
 		Bounds: func(tier string) map[string]any {
 			if tier == "thorough" {
-				return map[string]any{"operations": len(c16Ops()), "bfs_depth_bound": 8, "histories_without_dedup_len": "4 (cut by the internal deadline: exhaustive=false names what was completed)", "load_configurations": 4}
+				return map[string]any{"operations": len(c16Ops()), "bfs_depth_bound": 8, "histories_without_dedup_len": 3, "load_configurations": 4}
 			}
-			return map[string]any{"operations": len(c16Ops()), "bfs_depth_bound": 4, "histories_without_dedup_len": 3, "load_configurations": 4}
+			return map[string]any{"operations": len(c16Ops()), "bfs_depth_bound": 4, "histories_without_dedup_len": 2, "load_configurations": 4}
 		},
 		Assume: []string{
 			"canonicalisation argument: the interpreter has no mutable state other than package-level variables and the Template's program table (no goroutines, no open files, no caches elsewhere), all of which are in the hashed vector, so equal vectors have equal futures",
